@@ -19,8 +19,8 @@ theorem rowAt_growTo (l : List (Option α)) (n j : Nat) :
     rw [List.getElem?_append_right h']
     simp only [List.getElem?_eq_none h', Option.join_none]
     by_cases h2 : j - l.length < n - l.length
-    · simp [List.getElem?_replicate, h2]
-    · simp [List.getElem?_replicate, h2]
+    · simp [h2]
+    · simp [h2]
 
 @[simp] theorem length_setAt (l : List (Option α)) (i : Nat) (r : α) :
     (setAt l i r).length = max l.length (i + 1) := by
